@@ -39,6 +39,12 @@ func LayoutByTag(tag string) LayoutDef {
 	if tag == "LP" {
 		return LP
 	}
+	if tag == "LH" { // an archive of 8000 slots (24 pages)
+		return L("LH", "1s:8000s,400s:16000s")
+	}
+	if tag == "LQ" { // an archive of 1500 slots (18 KB): batches larger than any plausible write-behind threshold
+		return L("LQ", "1s:1500s,300s:6000s")
+	}
 	if tag == "L10" { // smallest three-level layout (6 slots): used where contents are enumerated per slot
 		return L("L10", "1s:2s,2s:4s,4s:8s")
 	}
